@@ -62,6 +62,13 @@ func main() {
 			usage()
 		}
 		os.Exit(h.DigestHistory(os.Args[2], os.Args[3]))
+	case "c15bisect":
+		if len(os.Args) < 5 {
+			usage()
+		}
+		ht, _ := strconv.ParseInt(os.Args[3], 10, 64)
+		ti, _ := strconv.Atoi(os.Args[4])
+		os.Exit(h.C15Bisect(os.Args[2], ht, ti))
 	case "replay":
 		if len(os.Args) < 3 {
 			usage()
